@@ -2350,6 +2350,52 @@ def promotion_keeps_safety(repo, run, rule):
         run.ok(rule, fi, 'a promoted node carries the winner\'s safety flags (%d rows)' % rows)
 
 
+def plain_container_table(repo, run, rule):
+    """ConfigDict / ConfigList.ayns.on_evaluate_impl evaluated on a node with two (three) children, the context as a recording stand-in:
+    every child is evaluated exactly once through ctx.evaluate_node, in child-map order, under the path of the container extended by
+    its name (mapping keys are evaluated too, right before their value, without a path); the result pairs evaluated keys with evaluated
+    values (a Bunch) / lists the evaluated values - whatever the shape of the code (comprehension, loop, generator helper)"""
+    bad = []
+    rows = 0
+    for q, cls in (('ConfigDict.ayns.on_evaluate_impl', 'ConfigDict'), ('ConfigList.ayns.on_evaluate_impl', 'ConfigList')):
+        fi = repo.func(q)
+        for n in (0, 2, 3):
+            nodes = [node_obj('N%d' % i) for i in range(n)]
+            names = ['k%d' % i for i in range(n)] if cls == 'ConfigDict' else list(range(n))
+            me = node_obj('me', cls, _children=dict(zip(names, nodes)))
+            log = []
+
+            def stub(name, recv, a, k, log=log):
+                if name == 'evaluate_node':
+                    log.append((a[0], list(a[1]) if len(a) > 1 and a[1] is not None else None))
+                    return ('EV', getattr(a[0], 'name', a[0]))
+                raise Unsupported('call of ' + name)
+            f = FDE(repo, stubs={'evaluate_node'}, stub=stub, max_depth=8)
+            f.constructors = {'Bunch': lambda *a, **k: ('Bunch', list(a[0].items()) if a and isinstance(a[0], dict) else (list(a[0]) if a else []))}
+            r = fde_guard(lambda: f.call(fi, me, ['p'], Obj('ctx', 'EvalContext')))
+            rows += 1
+            what = '%s with %d children' % (q.split('.')[0], n)
+            if r.raised:
+                bad.append('%s: raises %s' % (what, r.raised))
+                continue
+            want_log, want_ret = [], []
+            for nm, nd in zip(names, nodes):
+                if cls == 'ConfigDict':
+                    want_log.append((nm, None))
+                want_log.append((nd, ['p', nm]))
+                want_ret.append((('EV', nm), ('EV', nd.name)) if cls == 'ConfigDict' else ('EV', nd.name))
+            got_ret = r.ret[1] if isinstance(r.ret, tuple) and r.ret and r.ret[0] == 'Bunch' else r.ret
+            if [(x[0] if not isinstance(x[0], Obj) else x[0].name, x[1]) for x in log] != [(x[0] if not isinstance(x[0], Obj) else x[0].name, x[1]) for x in want_log]:
+                bad.append('%s: evaluates %s, expected %s (every child once, in order, under the container\'s path + its name)' % (what, [(getattr(x[0], 'name', x[0]), x[1]) for x in log], [(getattr(x[0], 'name', x[0]), x[1]) for x in want_log]))
+            elif (cls == 'ConfigDict' and not (isinstance(r.ret, tuple) and r.ret and r.ret[0] == 'Bunch')) or list(got_ret if isinstance(got_ret, (list, tuple)) else []) != want_ret:
+                bad.append('%s: the result is %r, expected %s of %s' % (what, r.ret, 'a Bunch' if cls == 'ConfigDict' else 'the list', want_ret))
+    run.table(rule, rows, 'plain containers x number of children')
+    if bad:
+        run.violation(rule, repo.func('ConfigDict.ayns.on_evaluate_impl'), 'evaluation of plain containers', bad[0] + (' [%d rows]' % len(bad) if len(bad) > 1 else ''), witness=bad[:4])
+    else:
+        run.ok(rule, repo.func('ConfigDict.ayns.on_evaluate_impl'), 'plain containers evaluate every child once, in order, through the context (%d rows)' % rows)
+
+
 def add_multiple_sources_table(repo, run, rule):
     """Builder.add_multiple_sources evaluated (add_source is a recording stand-in): source i is added with the i-th raw_yaml /
     filename / safe value when a sequence is given and with the single value when a scalar is given (a string counts as a scalar);
